@@ -77,7 +77,8 @@ Lemma f_run_op v outs st o :
                  match snd x with RRead i _ => ri v <= i < ri (fst (fst x)) | _ => True end).
 Proof.
   destruct o as [x| |k oc|]; cbn [run_op].
-  - destruct (would_wait c v x); [cbn [wp fst snd]; split; [lia|exact I]|].
+  - destruct (too_large c x); [cbn [wp fst snd]; split; [lia|exact I]|].
+    destruct (would_wait c v x); [cbn [wp fst snd]; split; [lia|exact I]|].
     apply wp_bind. eapply wp_mono; [intros s0 Hs0; exact Hs0| |apply (f_put v st x)].
     intros y st' H. cbn beta in H. cbn [wp fst snd]. split; [lia|exact I].
   - apply wp_bind. unfold readQ. destruct (stopped v); [cbn [wp fst snd]; split; [lia|exact I]|].
@@ -108,7 +109,7 @@ Proof.
   cbn [fst snd] in HR. destruct HR as [H1 H2]. apply IH. unfold fifo_inv. rewrite read_idx_app.
   assert (HF1 : Forall (fun i => i < ri v1) (read_idx obs)).
   { eapply Forall_impl; [|exact HF]. intros a Ha. cbn beta in Ha. lia. }
-  destruct r as [a| |i x| | |e|]; cbn [read_idx flat_map fst app]; rewrite ?app_nil_r; try (split; assumption).
+  destruct r as [a| | |i x| | |e|]; cbn [read_idx flat_map fst app]; rewrite ?app_nil_r; try (split; assumption).
   split.
   - apply sorted_snoc; [exact HS|]. eapply Forall_impl; [|exact HF]. intros a Ha. cbn beta in Ha. lia.
   - apply Forall_app. split; [exact HF1|]. constructor; [lia|constructor].
